@@ -8,7 +8,7 @@ var properties = map[string]*property{}
 func init() {
 	properties["C01"] = &property{
 		ID: "C01", Level: "model_checking",
-		Harnesses: visitHarnesses(map[string]int{"K": 3, "B": 2, "strlen": 8, "paths": 4000}, map[string]int{"K": 4, "B": 2, "strlen": 8, "paths": 60000}),
+		Harnesses: visitHarnesses(map[string]int{"K": 3, "B": 2, "strlen": 8, "paths": 1000}, map[string]int{"K": 4, "B": 2, "strlen": 8, "paths": 30000}),
 	}
 	properties["C06"] = &property{
 		ID: "C06", Level: "model_checking",
@@ -84,7 +84,10 @@ func visitHarnesses(quick, thorough map[string]int) []harness {
 	}
 	var hs []harness
 	for _, n := range names {
-		hs = append(hs, harness{Name: "gsxVisit_" + n, Pkg: "checkers", Quick: quick, Thorough: thorough, NoValidate: true, ReplayFn: replayVisit(n)})
+		hs = append(hs, harness{Name: "gsxVisit_" + n, Pkg: "checkers", Quick: quick, Thorough: thorough, NoValidate: true, Tolerant: true, ReplayFn: replayVisit(n)})
+		wq := map[string]int{"K": 2, "B": 1, "strlen": 8, "paths": 300}
+		wt := map[string]int{"K": 3, "B": 2, "strlen": 8, "paths": 10000}
+		hs = append(hs, harness{Name: "gsxWalk_" + n, Pkg: "checkers", Quick: wq, Thorough: wt, NoValidate: true, Tolerant: true, ReplayFn: replayVisit(n)})
 	}
 	return hs
 }
